@@ -138,7 +138,7 @@ package hessian
 //@   ensures [C02,C05:clsdef-registered] err == nil ==> result0 == len(old(e.clsDefList)) && len(e.clsDefList) == len(old(e.clsDefList)) + 1 && e.clsDefList[result0].FullClassName == clsName
 
 //@ func (*Encoder).writeObject
-//@   atcall (*Encoder).existClassDef [C12:namemap-written-only-when-name-missing] old(maphas(e.nameMap, R.tName(typ))) ==> mapsame(e.nameMap)
+//@   atcall (*Encoder).existClassDef [C12:namemap-written-only-when-name-missing] old(maphas(e.nameMap, R.typeName(typ))) ==> mapsame(e.nameMap)
 //@   ensures [C04:refs-grow] mapsize(e.refMap) >= old(mapsize(e.refMap))
 //@   loop 1 invariant [C04:registered-before-children] mapsize(e.refMap) >= old(mapsize(e.refMap)) + 1
 //@   depth [C04:encode-depth] rank 1 measure 1099511627776 - mapsize(e.refMap)
